@@ -36,7 +36,7 @@ def read_tree(root: Path) -> dict[str, str]:
     out = {}
     for p in sorted(root.rglob("*")):
         if p.is_file():
-            out[str(p.relative_to(root))] = p.read_text(encoding="utf-8")
+            out[str(p.relative_to(root))] = p.read_bytes().decode("utf-8")
     return out
 
 
